@@ -4,6 +4,8 @@ import os
 
 
 def ncores():
+    if os.environ.get("VERIF_PROCS", "").isdigit():      # sweeps that run several checks side by side limit each pool
+        return max(1, int(os.environ["VERIF_PROCS"]))
     try:
         return max(1, min(16, len(os.sched_getaffinity(0))))
     except Exception:
